@@ -207,8 +207,12 @@ class CMDResponse(py4hw.Logic):
                 self.valid.prepare(1)
             else:
                 self.valid.prepare(0)
-                self.state = 3
-                self.aux = (self.temp >> (self.temp_size*4))   & 0xF
+                if (self.temp_size < 0):
+                    # no digits requested: go straight to the terminator
+                    self.state = 5
+                else:
+                    self.state = 3
+                    self.aux = (self.temp >> (self.temp_size*4))   & 0xF
         elif (self.state == 3): # SEND Most Significant Nibble
             if (self.ready.get()):
                 self.state = 4
